@@ -1026,6 +1026,14 @@ func (h *hostileRun) sizes(n int) {
 	// ---- methods and content types, small and oversized
 	methods := []string{"POST", "GET", "PUT", "DELETE", "OPTIONS", "PATCH"}
 	ctypes := []string{"", "text/plain", "application/x-www-form-urlencoded", "application/json; charset=", ";;;", "multipart/form-data; boundary=x", "application/jsonp", "text/json"}
+	// the refused methods with everything else in order (accepted content type, small body): refused for the method alone
+	for _, m := range []string{"PUT", "DELETE"} {
+		for _, ct := range acceptedTypes {
+			if h.restarts < 4 {
+				h.httpCase(pads[rng.Intn(len(pads))], 0, []int{frCL, frChunkedFew}[rng.Intn(2)], httpEnvelope{m, ct}, true)
+			}
+		}
+	}
 	for i := 0; i < 6*passes && h.restarts < 4; i++ {
 		env := httpEnvelope{methods[i%len(methods)], "application/json"}
 		if i%2 == 1 || rng.Intn(3) == 0 {
